@@ -125,6 +125,13 @@ func CanDescend(v any) bool {
 // StructToMap converts a struct to a map using JSON tags for keys.
 // Nested structs are recursively converted to maps as well.
 func StructToMap(data any) map[string]any {
+	return structToMap(data, map[uintptr]bool{})
+}
+
+// structToMap converts like StructToMap; onPath holds the pointers currently being converted,
+// so that data referring back to itself (parent links, rings) ends in an empty map instead of
+// recursing until the stack overflows.
+func structToMap(data any, onPath map[uintptr]bool) map[string]any {
 	result := make(map[string]any)
 	if data == nil {
 		return result
@@ -136,6 +143,12 @@ func StructToMap(data any) map[string]any {
 		if rv.IsNil() {
 			return result
 		}
+		ptr := rv.Pointer()
+		if onPath[ptr] {
+			return result
+		}
+		onPath[ptr] = true
+		defer delete(onPath, ptr)
 		rv = rv.Elem()
 	}
 
@@ -166,7 +179,7 @@ func StructToMap(data any) map[string]any {
 
 		// Recursively convert nested structs
 		if fv.Kind() == reflect.Struct || (fv.Kind() == reflect.Ptr && fv.Type().Elem().Kind() == reflect.Struct) {
-			fieldValue = StructToMap(fieldValue)
+			fieldValue = structToMap(fieldValue, onPath)
 		}
 
 		result[tagName] = fieldValue
